@@ -226,9 +226,8 @@ func (a *Act) analyse() {
 	for i := len(post) - 1; i >= 0; i-- {
 		a.order = append(a.order, post[i])
 	}
-	if fn.Recover != nil {
-		a.unsup("recover block")
-	}
+	// fn.Recover (present whenever the function defers) is only entered after a
+	// recovered panic; panics are proved unreachable, so the block is ignored.
 }
 
 func isBackEdge(from, to *ssa.BasicBlock) bool { return to.Dominates(from) }
@@ -478,11 +477,18 @@ func (a *Act) enterLoop(li *loopInfo, st *State) *State {
 	// 4. havoc
 	nst := &State{mem: st.mem.clone(), reach: st.reach}
 	for _, c := range li.touched {
-		s := a.vc.comps[c]
 		if c == "alloc" {
 			na := a.vc.declare("alloc_"+lname, SortInt)
 			a.vc.assume("true", app("<=", li.allocLE, na))
 			nst.mem.m[c] = na
+		}
+	}
+	if _, ok := nst.mem.m["alloc"]; !ok {
+		nst.mem.m["alloc"] = li.allocLE
+	}
+	for _, c := range li.touched {
+		s := a.vc.comps[c]
+		if c == "alloc" {
 			continue
 		}
 		cur := a.vc.comp(st.mem, c, s)
@@ -500,7 +506,7 @@ func (a *Act) enterLoop(li *loopInfo, st *State) *State {
 			}
 		}
 		if all || strings.HasPrefix(c, "G:") || strings.HasPrefix(c, "ghost:") {
-			nst.mem.m[c] = a.vc.declare("hv_"+c, s)
+			nst.mem.m[c] = a.vc.declareHeap("hv_"+c, s, nst.mem.m["alloc"])
 			continue
 		}
 		if len(refs) == 0 {
@@ -517,7 +523,7 @@ func (a *Act) enterLoop(li *loopInfo, st *State) *State {
 				continue
 			}
 			seenRef[r] = true
-			fv := a.vc.declare("hv_"+c, elemSort)
+			fv := a.vc.declareHeap("hv_"+c, elemSort, nst.mem.m["alloc"])
 			t = sto(t, r, fv)
 		}
 		nst.mem.m[c] = a.vc.define("hv_"+c, s, t)
